@@ -448,7 +448,7 @@ def run(tier, replay=None):
         if doc.get("history"):
             print("re-run on the implementation now:", case_lit([tuple(e) for e in doc["history"]], active=doc.get("active", False)))
         return 0
-    proof = common.prove(report, "C05", ["statemachines", "protoconsts"], extra_targets=["Run/C05Run.vo"])
+    proof = common.prove(report, "C05", ["statemachines", "protoconsts", "hsmsctrl"], extra_targets=["Run/C05Run.vo"])
     ok, log = common.coq_make(["Run/C05Run.vo"])
     if not ok:
         report.violation({"kind": "broken-obligation", "obligation": "model Run/C05Run.vo does not build against the regenerated connection machine", "detail": log[-1500:], "also": proof.get("broken")}, False, tag="modelbuild")
